@@ -203,7 +203,7 @@ struct ImageDamage : Family {
 		for (size_t vi = 0; vi < variants.size(); ++vi) {
 			const Line& dmg = variants[vi];
 			// backend rotates so that every backend meets every damage class over the sweep; a pinned variant carries its backend
-			const std::string backendName = dmg.has("backend") ? dmg.get("backend") : (vi % 7 == 3) ? "file" : (vi % 7 == 5) ? "sim" : "mem";
+			const std::string backendName = dmg.has("backend") ? dmg.get("backend") : (vi % 7 == 3) ? "file" : (vi % 7 == 5) ? "sim" : (vi % 7 == 6 && kind != "tsbmp" && kind != "pbmp") ? "path" : "mem";
 			{ Line pinned = dmg; pinned.set("backend", backendName); ctx.setVariant(pinned.str()); }
 			ctx.setOp(0);
 			std::vector<uint8_t> bytes = applyDamage(valid, fields, dmg);
@@ -215,6 +215,14 @@ struct ImageDamage : Family {
 			std::shared_ptr<ArtFile> art;
 			std::string what;
 			Out o = callLib(plan, [&] {
+				if (backendName == "path") {
+					// the filename overloads - and their history: the VALID file was loaded by name right before (result not judged)
+					disk::put("dvalid.in", valid);
+					disk::put("d.in", bytes);
+					if (kind == "bmp") { try { (void)BitmapFile::ReadIndexed(std::string("dvalid.in")); } catch (const std::exception&) {} bf = BitmapFile::ReadIndexed(std::string("d.in")); }
+					else { try { (void)ArtFile::Read(std::string("dvalid.in")); } catch (const std::exception&) {} art = std::make_shared<ArtFile>(ArtFile::Read(std::string("d.in"))); }
+					return;
+				}
 				ReaderBox b = openBackend(backend, bytes, "d", 1);
 				if (kind == "bmp") bf = BitmapFile::ReadIndexed(*b.rd);
 				else if (kind == "prt") art = std::make_shared<ArtFile>(ArtFile::Read(*b.rd));
